@@ -1,5 +1,6 @@
 """Read operations as data: strategies that construct in-range calls, an executor that performs a call
 on the real library, and the oracle that computes the expected result from the independent Truth."""
+import os
 import numpy as np
 from hypothesis import strategies as st
 
@@ -119,7 +120,7 @@ def op_3d(draw, T, methods=None):
     if m in ("gen_trace_header", "gen_trace_header_all", "header"):
         return {"m": m, "a": [draw(index_in(T.n_tr, bs[1]))]}
     if m in ("get_tracefield_values", "attributes"):
-        return {"m": m, "a": [draw(st.sampled_from(T.owners))]}
+        return {"m": m, "a": [draw(st.sampled_from(tracefield_choices(T)))]}
     if m == "meta":
         return {"m": m, "a": []}
     raise ValueError(m)
@@ -153,7 +154,7 @@ def op_2d(draw, T, methods=None):
     if m == "read_subplane":
         return {"m": m, "a": list(draw(range_in(n_tr, bs[1]))) + list(draw(range_in(n_s, bs[2])))}
     if m in ("get_tracefield_values", "attributes"):
-        return {"m": m, "a": [draw(st.sampled_from(T.owners))]}
+        return {"m": m, "a": [draw(st.sampled_from(tracefield_choices(T)))]}
     if m == "meta":
         return {"m": m, "a": []}
     raise ValueError(m)
@@ -183,9 +184,29 @@ def methods_for(T, reader_only=False, emu_only=False, samples_only=False):
     return ms
 
 
+def field_owner(T, code):
+    """The field whose footer array holds the values of `code` (itself, or the word it duplicates); None for a
+    word that is constant through the file (no array)."""
+    if isinstance(T.cols[code], (int, np.integer)):
+        return None
+    for c, const, dup in T.s.table:
+        if c == code:
+            return dup
+    return None
+
+
+def tracefield_choices(T):
+    """Header words a caller may ask whole arrays of: the stored ones (weighted), words stored as duplicates of
+    another, and a few that are constant through the file (sample count, interval, offset, two unused words)."""
+    dups = [c for c, const, dup in T.s.table if c in T.cols and const == 0 and dup not in (0, c) and not isinstance(T.cols[c], (int, np.integer))]
+    consts = [c for c in (115, 117, 37, 233, 29) if c in T.cols and isinstance(T.cols[c], (int, np.integer))]
+    return list(T.owners) * 2 + dups + consts
+
+
 def op_for(T, **kw):
     ms = methods_for(T, **kw)
-    return op_2d(T, ms) if T.is_2d else op_3d(T, ms)
+    base = op_2d(T, ms) if T.is_2d else op_3d(T, ms)
+    return st.builds(lambda o, t: dict(o, argt=t) if t != "int" else o, base, st.sampled_from(ARG_FLAVOURS))
 
 
 # --------------------------------------------------------------------------------------------------
@@ -231,6 +252,8 @@ def expected(T, op):
         return "header", T.header(a[0])
     if m == "get_tracefield_values":
         col = T.cols[a[0]]
+        if isinstance(col, (int, np.integer)):
+            return _constant_word(T, col, grid=not T.is_2d)
         if T.is_2d:
             return "ints", np.asarray(col)
         return "ints", np.asarray(col).reshape(T.n_il, T.n_xl)
@@ -242,8 +265,24 @@ def expected(T, op):
                         "tracecount": T.n_tr, "samples": np.asarray(T.samples, dtype=np.float64)}
     if m == "attributes":
         # the emulator's attributes(field): the stored array as one flat vector (grid order, zeros at holes)
+        if isinstance(T.cols[a[0]], (int, np.integer)):
+            return _constant_word(T, T.cols[a[0]], grid=False)
         return "ints", np.asarray(T.cols[a[0]]).reshape(-1)
     raise ValueError(m)
+
+
+def _constant_word(T, value, grid):
+    """A word that is constant through the file, asked for as a whole array: one value per trace (2D) or per
+    grid position; what a position without a trace holds (the constant or 0) is not stated anywhere."""
+    if T.is_2d:
+        return "ints", np.full(T.n_tr, int(value), dtype=np.int64)
+    n = T.n_il * T.n_xl
+    want = np.full(n, int(value), dtype=np.int64)
+    live = np.zeros(n, dtype=bool)
+    live[np.asarray(T.pop, dtype=np.int64)] = True
+    if grid:
+        want, live = want.reshape(T.n_il, T.n_xl), live.reshape(T.n_il, T.n_xl)
+    return ("ints", want) if live.all() else ("ints-live", (want, live))
 
 
 def xarray_index(op):
@@ -320,33 +359,40 @@ class Handles:
                 pass
 
 
+ARG_TYPES = {"int": int, "np64": np.int64, "np32": np.int32, "intp": np.intp}
+ARG_FLAVOURS = ["int", "int", "int", "np64", "np32", "int", "intp", "int"]
+
+
 def perform(H, op):
     """Run the call on the real library; returns the raw result."""
     T = H.T
     m, a = op["m"], op["a"]
+    # the integer type a caller's ordinals and line numbers arrive in: a Python int, or what indexing a NumPy
+    # array / np.argmin / a loop over np.arange hands over
+    cv = ARG_TYPES[op.get("argt") or os.environ.get("VERIF_ARGT") or "int"]
     if m == "read_inline":
-        return H.reader.read_inline(a[0])
+        return H.reader.read_inline(cv(a[0]))
     if m == "read_inline_number":
-        return H.reader.read_inline_number(int(T.ilines[a[0]]))
+        return H.reader.read_inline_number(cv(T.ilines[a[0]]))
     if m == "read_crossline":
-        return H.reader.read_crossline(a[0])
+        return H.reader.read_crossline(cv(a[0]))
     if m == "read_crossline_number":
-        return H.reader.read_crossline_number(int(T.xlines[a[0]]))
+        return H.reader.read_crossline_number(cv(T.xlines[a[0]]))
     if m == "read_zslice":
-        return H.reader.read_zslice(a[0])
+        return H.reader.read_zslice(cv(a[0]))
     if m == "read_zslice_coord":
         return H.reader.read_zslice_coord(H.reader.zslices[a[0]])
     if m == "read_subvolume":
-        return H.reader.read_subvolume(*a)
+        return H.reader.read_subvolume(*[cv(x) for x in a])
     if m == "read_volume":
         return H.reader.read_volume()
     if m == "tools.cube":
         import seismic_zfp
         return seismic_zfp.tools.cube(H.path)
     if m == "get_trace":
-        return H.reader.get_trace(a[0])
+        return H.reader.get_trace(cv(a[0]))
     if m == "get_trace_window":
-        return H.reader.get_trace(a[0], a[1], a[2])
+        return H.reader.get_trace(cv(a[0]), cv(a[1]), cv(a[2]))
     if m == "get_trace_by_coord":
         z = H.reader.zslices
         lo = None if (op["open"][0] and a[1] == 0) else z[a[1]]
@@ -354,21 +400,21 @@ def perform(H, op):
             hi = None if op["open"][1] else z[-1] + (z[-1] - z[-2])   # "last value plus the last step": what a caller writes for a float axis
         else:
             hi = z[a[2]]
-        return H.reader.get_trace_by_coord(a[0], lo, hi)
+        return H.reader.get_trace_by_coord(cv(a[0]), lo, hi)
     if m in ("cdiag", "adiag"):
         fn = H.reader.read_correlated_diagonal if m == "cdiag" else H.reader.read_anticorrelated_diagonal
         kw = {}
         if "crop" in op:
-            kw.update(dict(zip(("min_cd_idx", "max_cd_idx") if m == "cdiag" else ("min_ad_idx", "max_ad_idx"), op["crop"])))
+            kw.update(dict(zip(("min_cd_idx", "max_cd_idx") if m == "cdiag" else ("min_ad_idx", "max_ad_idx"), [cv(x) for x in op["crop"]])))
         if "win" in op:
-            kw.update(min_sample_idx=op["win"][0], max_sample_idx=op["win"][1])
-        return fn(a[0], **kw)
+            kw.update(min_sample_idx=cv(op["win"][0]), max_sample_idx=cv(op["win"][1]))
+        return fn(cv(a[0]), **kw)
     if m == "read_subplane":
-        return H.reader.read_subplane(*a)
+        return H.reader.read_subplane(*[cv(x) for x in a])
     if m == "gen_trace_header":
-        return H.reader.gen_trace_header(a[0])
+        return H.reader.gen_trace_header(cv(a[0]))
     if m == "gen_trace_header_all":
-        return H.reader.gen_trace_header(a[0], load_all_headers=True)
+        return H.reader.gen_trace_header(cv(a[0]), load_all_headers=True)
     if m == "get_tracefield_values":
         return H.reader.get_tracefield_values(a[0])
     if m == "meta":
@@ -378,15 +424,15 @@ def perform(H, op):
                 "bin": bytes(r.file_binary_header), "tracecount": int(r.tracecount), "samples": np.asarray(r.zslices, dtype=np.float64)}
     # emulator
     if m == "iline":
-        return H.emu.iline[int(T.ilines[a[0]])]
+        return H.emu.iline[cv(T.ilines[a[0]])]
     if m == "xline":
-        return H.emu.xline[int(T.xlines[a[0]])]
+        return H.emu.xline[cv(T.xlines[a[0]])]
     if m == "depth_slice":
-        return H.emu.depth_slice[a[0]]
+        return H.emu.depth_slice[cv(a[0])]
     if m == "trace":
-        return H.emu.trace[a[0]]
+        return H.emu.trace[cv(a[0])]
     if m == "header":
-        return H.emu.header[a[0]]
+        return H.emu.header[cv(a[0])]
     if m == "attributes":
         return np.array(H.emu.attributes(a[0])[:])
     if m == "subvolume_acc":
@@ -460,6 +506,11 @@ def compare(kind, got, want, op):
         if g != want:
             bad = {k: (g.get(k), want.get(k)) for k in set(g) | set(want) if g.get(k) != want.get(k)}
             raise Violation(f"wrong-header:{op['m']}", f"{op}: field -> (got, want): {dict(list(bad.items())[:6])}")
+    elif kind == "ints-live":
+        g = np.asarray(got)
+        w, live = want
+        if g.shape != w.shape or not np.array_equal(g.astype(np.int64)[live], w[live]) or not np.isin(g.astype(np.int64)[~live], [0, int(w.flat[0])]).all():
+            raise Violation(f"wrong-ints:{op['m']}", f"{op}: shape {g.shape} vs {w.shape}, or a wrong value at a position that holds a trace")
     elif kind == "ints":
         g = np.asarray(got)
         if g.shape != want.shape or not np.array_equal(g.astype(np.int64), want.astype(np.int64)):
@@ -501,6 +552,14 @@ def _rng(u0, u1, n):
 def concretise(T, a):
     """Map an abstract op onto in-range arguments for the file whose truth is T (None if the method
     does not apply to this file)."""
+    o = _concretise(T, a)
+    t = ARG_FLAVOURS[(a["k"][3] + 2 * a["b"][7]) % len(ARG_FLAVOURS)]
+    if o is not None and t != "int":
+        o["argt"] = t
+    return o
+
+
+def _concretise(T, a):
     m, u, b, k = a["m"], a["u"], a["b"], a["k"]
     if m not in methods_for(T):
         return None
@@ -512,7 +571,7 @@ def concretise(T, a):
         if m == "read_subplane":
             return {"m": m, "a": [*_rng(u[0], u[1], T.n_tr), *_rng(u[2], u[3], T.n_s)]}
         if m in ("get_tracefield_values", "attributes"):
-            return {"m": m, "a": [T.owners[_idx(u[0], len(T.owners))]]}
+            return {"m": m, "a": [tracefield_choices(T)[_idx(u[0], len(tracefield_choices(T)))]]}
         if m == "meta":
             return {"m": m, "a": []}
         return None
@@ -556,7 +615,7 @@ def concretise(T, a):
             op["win"] = list(_rng(u[3], u[4], n_s))
         return op
     if m in ("get_tracefield_values", "attributes"):
-        return {"m": m, "a": [T.owners[_idx(u[0], len(T.owners))]]}
+        return {"m": m, "a": [tracefield_choices(T)[_idx(u[0], len(tracefield_choices(T)))]]}
     if m == "meta":
         return {"m": m, "a": []}
     return None
